@@ -69,13 +69,16 @@ def find_function(mod: str, qualname: str):
     src, tree, path = load_module(mod)
     node: Any = tree
     for part in [p for p in qualname.split(".") if p != "<locals>"]:
-        found = None
-        for child in ast.walk(node) if not isinstance(node, ast.Module) else node.body:
-            if child is node:
-                continue
-            if isinstance(child, (ast.FunctionDef, ast.ClassDef, ast.AsyncFunctionDef)) and child.name == part:
-                found = child
-                break
+        kinds = (ast.FunctionDef, ast.ClassDef, ast.AsyncFunctionDef)
+        # direct children first; of several definitions of one name (typing @overload stubs) the last non-stub one is the one that runs
+        direct = [c for c in getattr(node, "body", []) if isinstance(c, kinds) and c.name == part]
+        real = [c for c in direct if not any(ast.unparse(dec).endswith("overload") for dec in c.decorator_list)]
+        found = (real or direct)[-1] if direct else None
+        if found is None:
+            for child in ast.walk(node):
+                if child is not node and isinstance(child, kinds) and child.name == part:
+                    found = child
+                    break
         if found is None:
             return None
         node = found
